@@ -156,3 +156,123 @@ def gen_cfile(protos):
     L += tab
     L.append('  {0, 0}};')
     return '\n'.join(L) + '\n', ok
+
+
+# ---------------------------------------------------------------- C sources compiled by c2mir (round 3)
+# The same prototypes, but the CALLER (or the callee) is compiled by c2mir inside the harness (mode c2m): this puts
+# c2mir's own argument classification (c2mir/x86_64/cx86_64-ABI-code.c: which aggregates travel in registers given
+# the registers the earlier arguments really used) under the same image / value comparison.
+
+C2M_DECLS = ['extern unsigned char *c05_vals, *c05_seen; extern unsigned char c05_ret[80];',
+             'extern void *memcpy (void *, const void *, unsigned long); extern void *memset (void *, int, unsigned long);']
+
+
+def c2m_expressible(p):
+    """expressible() restricted to what c2mir accepts (no attributes, no _Complex)"""
+    e = expressible(p)
+    if e is None:
+        return None
+    if any('__attribute__' in ct for ct in e['cts']) or '_Complex' in e['ret'] or '__attribute__' in e['ret']:
+        return None
+    return e
+
+
+def _typedefs(e):
+    L = ['typedef %s T%d;' % (ct, i) for i, ct in enumerate(e['cts'])]
+    L.append('typedef %s R;' % e['ret'])
+    return L
+
+
+def _ret_fill(p, e):
+    """statements that build the callee's return value from c05_ret (as gen_cfile's callee does)"""
+    res = p['res']
+    if e['sret']:
+        return ['  R r; memset (&r, 0x5a, sizeof (r)); return r;']
+    if len(res) == 1:
+        return ['  R r; memcpy (&r, c05_ret + %d, sizeof (r)); return r;' % {'f': 16, 'd': 16, 'ld': 32}.get(res[0], 0)]
+    if len(res) == 2:
+        cnt = {'i': 0, 'x': 0}
+        src = []
+        for r in res:
+            c = 'x' if r == 'd' else 'i'
+            src.append({'i': [0, 8], 'x': [16, 24]}[c][cnt[c]])
+            cnt[c] += 1
+        return ['  R r; memcpy (&r.a, c05_ret + %d, 8); memcpy (&r.b, c05_ret + %d, 8); return r;' % (src[0], src[1])]
+    return []
+
+
+def c2m_caller_source(p):
+    """C translation unit for c2mir: `void caller (void)` loads the argument values from c05_vals (layout of
+    gen_c05_cases.layout), calls the external `probe` through the C prototype, stores the result at c05_seen+2048"""
+    e = c2m_expressible(p)
+    if e is None:
+        return None
+    offs, _ = G.layout(p)
+    args = p['args'][1:] if e['sret'] else p['args']
+    aoffs = offs[1:] if e['sret'] else offs
+    nf = p['nfixed'] - (1 if e['sret'] else 0)
+    L = list(C2M_DECLS) + _typedefs(e)
+    ptypes = ', '.join('T%d' % i for i in range(nf))
+    if p['vararg']:
+        ptypes += ', ...'
+    L.append('extern R probe (%s);' % (ptypes or 'void'))
+    L.append('void caller (void) {')
+    for i in range(len(args)):
+        L.append('  T%d v%d; memcpy (&v%d, c05_vals + %d, sizeof (v%d));' % (i, i, i, aoffs[i], i))
+    call = 'probe (%s)' % ', '.join('v%d' % i for i in range(len(args)))
+    if e['ret'] == 'void':
+        L.append('  %s;' % call)
+    else:
+        L.append('  R r = %s; memcpy (c05_seen + 2048, &r, sizeof (r));' % call)
+    L.append('}')
+    return '\n'.join(L) + '\n'
+
+
+def c2m_callee_source(p):
+    """C translation unit for c2mir: `R callee (params)` stores every parameter into c05_seen at the layout
+    offsets (variadic tail via va_arg) and returns values taken from c05_ret"""
+    e = c2m_expressible(p)
+    if e is None:
+        return None
+    offs, _ = G.layout(p)
+    args = p['args'][1:] if e['sret'] else p['args']
+    aoffs = offs[1:] if e['sret'] else offs
+    nf = p['nfixed'] - (1 if e['sret'] else 0)
+    L = ['#include <stdarg.h>'] + list(C2M_DECLS) + _typedefs(e)
+    params = ', '.join('T%d a%d' % (i, i) for i in range(nf))
+    if p['vararg']:
+        params += ', ...'
+    L.append('R callee (%s) {' % (params or 'void'))
+    for i in range(nf):
+        L.append('  memcpy (c05_seen + %d, &a%d, sizeof (a%d));' % (aoffs[i], i, i))
+    if p['vararg']:
+        L.append('  va_list ap; va_start (ap, a%d);' % (nf - 1))
+        for i in range(nf, len(args)):
+            L.append('  { T%d t = va_arg (ap, T%d); memcpy (c05_seen + %d, &t, sizeof (t)); }' % (i, i, aoffs[i]))
+        L.append('  va_end (ap);')
+    L += _ret_fill(p, e)
+    L.append('}')
+    return '\n'.join(L) + '\n'
+
+
+def c_result_bytes(p, rets):
+    """[(offset in the C result object, bytes)] a C caller must find in its result when the callee left the
+    preset register values `rets` (gen_c05_cases.gen_values) - via the probe or via a callee filled from c05_ret"""
+    res = p['res']
+    if p['args'] and p['args'][0].startswith('rblk'):
+        return []
+    reg = {'i': [rets['rax'].to_bytes(8, 'little'), rets['rdx'].to_bytes(8, 'little')],
+           'x': [rets['xmm0'].to_bytes(8, 'little'), rets['xmm1'].to_bytes(8, 'little')],
+           'l': [rets['st0'], rets['st1']]}
+    cls = lambda t: 'x' if t in ('f', 'd') else 'l' if t == 'ld' else 'i'
+    size = lambda t: {'i8': 1, 'u8': 1, 'i16': 2, 'u16': 2, 'i32': 4, 'u32': 4, 'f': 4, 'ld': 10}.get(t, 8)
+    if len(res) == 1:
+        return [(0, reg[cls(res[0])][0][:size(res[0])])]
+    if len(res) == 2 and 'ld' not in res:
+        cnt = {'i': 0, 'x': 0}
+        out = []
+        for k, t in enumerate(res):
+            out.append((8 * k, reg[cls(t)][cnt[cls(t)]][:8]))
+            cnt[cls(t)] += 1
+        return out
+    return []
